@@ -120,6 +120,8 @@ class G(object):
             for k_ in ("wrs", "was", "waors", "allow_unsolicited"):
                 if self.rl.chance(0.15):
                     spec[k_] = None
+        if self.rl.chance(0.2):
+            spec["plain_config"] = True     # SP section inside a plain all-in-one Config object
         self.nodes.append(spec)
         return spec
 
@@ -426,6 +428,7 @@ def gen_c08(seed, tier):
         p = g.sign_params(sp)
         p["identity"] = g.identity(hostile=0.6)
         p["lifetime"] = r.pick([300, 900, 3600])
+        p["sp_policy_section"] = r.chance(0.3)
         p["authn_class"] = r.pick(AUTHN_CLASSES)
         fmt = r.pick(NAMEID_FORMATS)
         if r.chance(0.5):
@@ -533,6 +536,21 @@ def gen_c05(seed, tier):
                     del d["second_sc"]["irt"]
         if d:
             p["dialect"] = d
+        if r.chance(0.2):
+            # an attribute query over the SOAP back channel; the answer's audience restrictions count as well
+            f = g.new_flow()
+            g.ev("mkreq", f=f, sp=sp["name"], idp=idp["name"], kind="attribute_query", rb="soap", sign=r.chance(0.5))
+            g.tick()
+            g.ev("req", f=f)
+            g.tick()
+            pa = {"identity": p["identity"], "sign_response": r.chance(0.5), "sign_assertion": r.chance(0.5)}
+            if "audiences" in d:
+                pa["dialect"] = {"audiences": d["audiences"]}
+            g.ev("aq_answer", f=f, p=pa, sub=g.sub())
+            g.tick()
+            g.ev("resp", f=f, r=0, sub=g.sub())
+            g.tick()
+            continue
         mode = "plain" if clean else r.pick(["plain", "dup", "replay-late", "misdeliver", "other-endpoint",
                                               "restart", "reorder", "unsol", "drop"])
         if mode == "unsol":
@@ -897,7 +915,7 @@ def gen_c10(seed, tier):
             # single logout initiated by the IdP: the *SP* is the receiver that has to validate the request
             rb = r.pick(["soap", "post", "redirect"])
             g.ev("mkreq", f=f, sp=sp["name"], idp=idp["name"], kind="logout_request", direction="idp2sp", rb=rb,
-                 sign=bool(sign), **kw)
+                 sign=bool(sign), no_dest=r.chance(0.25), **kw)
             g.tick()
             fk = "plain" if clean else r.pick(["plain", "stale", "other-sp", "other-endpoint", "truncate", "xml-attr",
                                                "xml-sig", "dup", "tool"])
@@ -933,7 +951,8 @@ def gen_c10(seed, tier):
             continue
         else:
             rb = r.pick(["soap", "post", "redirect"]) if kindmsg == "logout_request" else "soap"
-            g.ev("mkreq", f=f, sp=sp["name"], idp=idp["name"], kind=kindmsg, rb=rb, sign=bool(sign), **kw)
+            g.ev("mkreq", f=f, sp=sp["name"], idp=idp["name"], kind=kindmsg, rb=rb, sign=bool(sign),
+                 no_dest=r.chance(0.25), **kw)
         g.tick()
         if clean:
             g.ev("req", f=f)
